@@ -13,7 +13,7 @@ import json
 
 from .. import core, tablekit as tk, tablerun as tr
 
-FORMATS = ["bed6", "bed3", "narrowpeak", "vcf", "sam", "bedgraph", "fastq", "fasta2"]
+FORMATS = ["bed6", "bed12", "bed3", "narrowpeak", "vcf", "sam", "bedgraph", "fastq", "fasta2"]
 SELS = ["all", "tail", "step", "mask", "list", "empty", "rev", "head"]
 RULE = ("one case = one program of table operations (TLC state of MC_C05) x format x field pair, replayed lazily and eagerly; "
         "non-trivial = the program contains a selection, concatenation or replacement before its last observation; distinct by "
